@@ -112,7 +112,11 @@ fn sc_name(sc: Scanner) -> String {
 }
 fn check_c16(si: usize, s: &[u8], offset: usize, pre: usize, chunk: usize, step: usize) -> Option<(String, String)> {
     let sc = SCANNERS[si];
-    let (mut r, m) = reader_with(s, pre, chunk, step);
+    // pre == len + 1: everything buffered AND the end of the input already seen by an earlier look-ahead
+    let (mut r, m) = reader_with(s, pre.min(s.len()), chunk, step);
+    if pre > s.len() {
+        let _ = r.request_byte_at_offset(s.len());
+    }
     let d0 = m.delivered.get();
     let ended0 = m.ended.get();
     let got = call(sc, &mut r, offset);
@@ -218,7 +222,7 @@ fn check_c13(ty: usize, which: usize, s: &[u8], offset: usize, pre: usize, chunk
     }
     None
 }
-fn boundary_strings() -> Vec<Vec<u8>> {
+fn boundary_strings(thorough: bool) -> Vec<Vec<u8>> {
     let mut v: Vec<String> = vec![];
     let centers: [i128; 12] = [i8::MIN as i128, i8::MAX as i128, u8::MAX as i128, i16::MIN as i128, i16::MAX as i128, u16::MAX as i128, i32::MIN as i128, i32::MAX as i128, u32::MAX as i128, i64::MIN as i128, i64::MAX as i128, u64::MAX as i128];
     for c in centers {
@@ -234,9 +238,15 @@ fn boundary_strings() -> Vec<Vec<u8>> {
     let mut out = vec![];
     for t in v {
         let (sign, digits) = if let Some(r) = t.strip_prefix('-') { ("-", r.to_string()) } else { ("", t.clone()) };
-        for pad in [0usize, 1, 7, 8, 20] {
+        for &pad in (if thorough { &[0usize, 1, 7, 8, 20][..] } else { &[0usize, 8][..] }) {
             for suffix in ["", " ", "x", "0x", "       \n"] {
                 out.push(format!("{}{}{}{}", sign, "0".repeat(pad), digits, suffix).into_bytes());
+            }
+            // bytes next to the digit range and non-ASCII bytes end the run as well
+            for suffix in [&b"/1"[..], b":1", b"\x80", b"\xb0\xb1", b"\xff\xff\xff\xff\xff\xff\xff\xff", b"\xc3\xa9 ", b"\x00", b"\x10"] {
+                let mut v = format!("{}{}{}", sign, "0".repeat(pad), digits).into_bytes();
+                v.extend_from_slice(suffix);
+                out.push(v);
             }
         }
     }
@@ -279,7 +289,7 @@ pub fn suite(prop: &str, tier: &str, _seed: u64) -> Report {
             rep.nontrivial += 1;
             for si in 0..SCANNERS.len() {
                 for offset in 0..=s.len() + 1 {
-                    for pre in 0..=s.len() {
+                    for pre in 0..=s.len() + 1 {
                         for &(chunk, step) in &[(1usize, 1usize), (3, 2), (16, 100)] {
                             rep.runs += 1;
                             let r = check_c16(si, s, offset, pre, chunk, step);
@@ -292,7 +302,7 @@ pub fn suite(prop: &str, tier: &str, _seed: u64) -> Report {
     }
     if all || prop == "C13" {
         // (a) every string of up to n bytes over a digit-heavy alphabet, narrow types (all boundaries are reachable)
-        let alpha = [b'0', b'1', b'2', b'5', b'7', b'8', b'9', b'-', b'x'];
+        let alpha = [b'0', b'1', b'2', b'5', b'7', b'8', b'9', b'-', b'x', 0xb5];
         let n = if tier == "thorough" { 5 } else { 4 };
         let mut level: Vec<Vec<u8>> = vec![vec![]];
         let mut strings: Vec<Vec<u8>> = vec![vec![]];
@@ -327,8 +337,9 @@ pub fn suite(prop: &str, tier: &str, _seed: u64) -> Report {
             }
         }
         // (b) boundary values of every type, padded, prefixed, with every relevant amount of buffered data
-        for b in boundary_strings() {
-            for prefix in [&b""[..], b"x", b"xyz"] {
+        for b in boundary_strings(tier == "thorough") {
+            let prefixes: Vec<&[u8]> = if tier == "thorough" { vec![b"", b"x", b"xyz"] } else { vec![b"", b"x"] };
+            for prefix in prefixes {
                 let mut s = prefix.to_vec();
                 s.extend_from_slice(&b);
                 let offset = prefix.len();
